@@ -277,7 +277,8 @@ pub fn claims_values(full: bool) -> Vec<RClaims> {
     let iss = [None, Some(String::new()), Some("i".to_string())];
     let sub = [None, Some("s".to_string())];
     let aud = [None, Some("a".to_string())];
-    let exp = [None, Some(RTime::Whole(0)), Some(RTime::Whole(i64::MIN)), Some(RTime::Frac(1.5f64.to_bits()))];
+    // whole-valued floats sit next to the integers denoting the same instant
+    let exp = [None, Some(RTime::Whole(0)), Some(RTime::Frac(0.0f64.to_bits())), Some(RTime::Whole(i64::MIN)), Some(RTime::Frac((i64::MIN as f64).to_bits())), Some(RTime::Frac(1.5f64.to_bits()))];
     let nbf = [None, Some(RTime::Whole(i64::MAX))];
     let iat = [None, Some(RTime::Frac((-0.0f64).to_bits()))];
     let cti: [Option<Vec<u8>>; 3] = [None, Some(vec![]), Some(b"c".to_vec())];
@@ -592,6 +593,63 @@ pub fn explore(ex: &Ex) {
                 l.sample(|| json!({"space": "c11.values", "value": crate::mc::truncate(&format!("{:?}", rv), 300), "reference_encoding": hex(&encode(rv).det())}));
             }
             check_value(ex.pid, rv, l);
+        }
+    });
+    eq_discriminates(ex, &vals);
+}
+
+/// The `==` the round-trip statement is phrased in tells values apart whenever their encodings
+/// differ: every pair of palette values of one type at most `WINDOW` apart in enumeration order
+/// (neighbours differ in few fields).  Negative zero is left out: -0.0 == 0.0 yet they encode
+/// differently.
+fn eq_discriminates(ex: &Ex, vals: &[RVal]) {
+    const WINDOW: usize = 256;
+    let mut by_ty: std::collections::BTreeMap<String, Vec<&RVal>> = Default::default();
+    for v in vals {
+        by_ty.entry(format!("{:?}", v.ty())).or_default().push(v);
+    }
+    let groups: Vec<(String, Vec<&RVal>)> = by_ty.into_iter().collect();
+    par_partitions(ex.rep, groups, |(ty, g), l| {
+        let built: Vec<Option<(subject::BoxSubj, Vec<u8>, String)>> = g
+            .iter()
+            .map(|rv| {
+                let s = subject::construct(rv).ok()??;
+                let b = s.to_vec().ok()?;
+                let d = s.debug();
+                if d.contains("-0.0") || d.contains("NaN") {
+                    return None;
+                }
+                Some((s, b, d))
+            })
+            .collect();
+        for i in 0..built.len() {
+            let Some((si, bi, _)) = &built[i] else { continue };
+            for j in (i + 1)..built.len().min(i + 1 + WINDOW) {
+                let Some((sj, bj, _)) = &built[j] else { continue };
+                if bi == bj {
+                    continue;
+                }
+                let case = format!("{:?} == {:?}", g[i], g[j]);
+                if let Ok(only) = std::env::var("VERIF_ONLY_CASE") {
+                    if only != case {
+                        continue;
+                    }
+                }
+                l.evaluations += 1;
+                l.impl_checked += 1;
+                l.count("c11.eq_pairs");
+                match si.eq_dyn(sj.as_ref()) {
+                    Some(Ok(false)) | None => {}
+                    Some(r) => l.viol(Viol {
+                        key: format!("{}:eq-conflates-values-with-different-encodings:{}", ex.pid, ty),
+                        space: "c11.eq".into(),
+                        case,
+                        direct: None,
+                        expected: format!("!= (encodings {} and {})", hex(bi), hex(bj)),
+                        observed: format!("{:?}", r),
+                    }),
+                }
+            }
         }
     });
 }
